@@ -301,6 +301,59 @@ func paramKinds(f *ssa.Function) []string {
 	return out
 }
 
+// ctorParamKinds: for a constructor New<Record>(...) of a comdex types package that returns
+// a record struct, the kind of each uint64 parameter taken from the one record field it is
+// stored in (nil when the function is not such a constructor).
+func ctorParamKinds(f *ssa.Function) []string {
+	if len(f.Blocks) == 0 || !strings.HasPrefix(f.Name(), "New") {
+		return nil
+	}
+	res := f.Signature.Results()
+	if res.Len() != 1 {
+		return nil
+	}
+	rt := namedOf(res.At(0).Type())
+	if rt == nil {
+		return nil
+	}
+	if _, ok := rt.Underlying().(*types.Struct); !ok {
+		return nil
+	}
+	out := make([]string, len(f.Params))
+	any := false
+	for i, pr := range f.Params {
+		if !isUint64(pr.Type()) || pr.Referrers() == nil {
+			continue
+		}
+		kind, n := "", 0
+		for _, ref := range *pr.Referrers() {
+			st, ok := ref.(*ssa.Store)
+			if !ok || st.Val != ssa.Value(pr) {
+				continue
+			}
+			fa, ok := st.Addr.(*ssa.FieldAddr)
+			if !ok || namedOf(fa.X.Type()) == nil || namedOf(fa.X.Type()).Obj() != rt.Obj() {
+				continue
+			}
+			fn := fieldName(fa.X.Type(), fa.Field)
+			n++
+			if fn == ownIDField(rt) {
+				kind = kindOfType(rt.Obj().Name())
+			} else {
+				kind = kindOfName(fn)
+			}
+		}
+		if n == 1 && kind != "" {
+			out[i] = kind
+			any = true
+		}
+	}
+	if !any {
+		return nil
+	}
+	return out
+}
+
 var idKindExceptions = map[string]string{
 	"x/lend/keeper.Keeper.CreteNewBorrow -> GetLendPair arg 1 (id)": "v1 liquidation stores the lend pair id of a lend-type locked vault in LockedVault.ExtendedPairId (documented reuse of the field)",
 	"x/lend/keeper.Keeper.CreteNewBorrow -> GetBorrow arg 1 (ID)":   "v1 liquidation stores the borrow id of a lend-type locked vault in LockedVault.OriginalVaultId (documented reuse of the field)",
@@ -331,13 +384,29 @@ func idKindRuleX(p *Prog, r *Report, rule string, modules, calleeMods map[string
 				continue
 			}
 			t := ts[0]
-			if !isComdexFn(t) || t.Signature.Recv() == nil || strings.HasSuffix(fnPkgPath(t), "/types") {
-				continue // only keeper-style methods: key constructors in types packages carry unreliable parameter names
-			}
-			if !callerIn && !calleeMods[moduleOf(t)] {
+			if !isComdexFn(t) {
 				continue
 			}
-			pk := paramKinds(t)
+			var pk []string
+			if t.Signature.Recv() == nil && strings.HasSuffix(fnPkgPath(t), "/types") {
+				// record constructors: the kind of a parameter is the kind of the record field it is
+				// stored in (key constructors in types packages carry unreliable parameter names and
+				// are not looked at)
+				if !callerIn {
+					continue
+				}
+				pk = ctorParamKinds(t)
+				if pk == nil {
+					continue
+				}
+			} else if t.Signature.Recv() == nil || strings.HasSuffix(fnPkgPath(t), "/types") {
+				continue // only keeper-style methods
+			} else {
+				if !callerIn && !calleeMods[moduleOf(t)] {
+					continue
+				}
+				pk = paramKinds(t)
+			}
 			args := callArgs(c)
 			known := 0
 			for _, k := range pk {
@@ -378,6 +447,53 @@ func idKindRuleX(p *Prog, r *Report, rule string, modules, calleeMods map[string
 					msg += " (the callee has a " + ak + " parameter in another position: arguments swapped?)"
 				}
 				r.Fail(rule, construct, msg, p.instrPos(c), nil)
+			}
+		}
+		// the same agreement where a record is filled field by field (composite literals and
+		// assignments): an id stored in a field naming another kind of record
+		if callerIn {
+			for _, b := range fn.Blocks {
+				for _, in := range b.Instrs {
+					st, ok := in.(*ssa.Store)
+					if !ok || !isUint64(st.Val.Type()) {
+						continue
+					}
+					fa, ok := st.Addr.(*ssa.FieldAddr)
+					if !ok {
+						continue
+					}
+					rt := namedOf(fa.X.Type())
+					if rt == nil || rt.Obj().Pkg() == nil || !strings.Contains(rt.Obj().Pkg().Path(), "comdex-official/comdex") {
+						continue
+					}
+					fnm := fieldName(fa.X.Type(), fa.Field)
+					if rt.Obj().Name() == "LockedVault" && (fnm == "OriginalVaultId" || fnm == "ExtendedPairId") {
+						continue
+					}
+					fk := kindOfName(fnm)
+					if fk == "" && fnm == ownIDField(rt) {
+						fk = kindOfType(rt.Obj().Name())
+					}
+					if fk == "" {
+						continue
+					}
+					ak := p.argKind(st.Val)
+					if ak == "" {
+						continue
+					}
+					r.Instance(rule)
+					n++
+					construct := fmt.Sprintf("%s %s.%s := %s id", fname(fn), rt.Obj().Name(), fnm, ak)
+					if compatibleKinds(ak, fk) {
+						r.OK(rule, construct, ak+" id stored as "+fk+" id", p.instrPos(st))
+						continue
+					}
+					if why, ok := idKindExceptions[construct]; ok {
+						r.Note("%s exception %s: %s", rule, construct, why)
+						continue
+					}
+					r.Fail(rule, construct, fmt.Sprintf("a %s id is stored in %s.%s, which names a %s", ak, rt.Obj().Name(), fnm, fk), p.instrPos(st), nil)
+				}
 			}
 		}
 		if n > 0 {
